@@ -1,11 +1,11 @@
 package l2
 
 import (
-	"os"
 	"bytes"
 	"context"
 	"fmt"
 	"math/big"
+	"os"
 	"sort"
 	"strconv"
 	"strings"
@@ -32,11 +32,12 @@ import (
 type M = absx.M
 
 type RunCfg struct {
-	Accts  []string
-	Denoms []string
-	Funded M // account -> denom -> units
-	Params M // initial abstract params
-	Devs   []string
+	Accts   []string
+	Denoms  []string
+	Funded  M // account -> denom -> units
+	Params  M // initial abstract params
+	Devs    []string
+	PreMeta []string // bridged denoms that already carry bank metadata before their first deposit (set at genesis or by another module)
 }
 
 type Chain struct {
@@ -96,7 +97,11 @@ func NewChain(c *l1.Conc, cfg RunCfg) *Chain {
 	ch := &Chain{F: f, Ctx: ctx, C: c, Cfg: cfg}
 	for _, d := range cfg.Denoms {
 		cd := c.Denom(d)
-		if strings.HasPrefix(d, "n") { // native L2 tokens have bank metadata of their own (as a token-factory or genesis token would)
+		pre := false
+		for _, x := range cfg.PreMeta {
+			pre = pre || x == d
+		}
+		if strings.HasPrefix(d, "n") || pre { // native L2 tokens have bank metadata of their own (as a token-factory or genesis token would)
 			f.Bank.SetDenomMetaData(ctx, banktypes.Metadata{Base: cd, Display: cd, Symbol: cd, Name: cd + " native", Description: "native L2 token",
 				DenomUnits: []*banktypes.DenomUnit{{Denom: cd, Exponent: 0}}})
 		}
@@ -328,7 +333,7 @@ func (ch *Chain) withdrawEvent(evs []abci.Event) M {
 func (ch *Chain) bridgeInfo(info M) opchildtypes.BridgeInfo {
 	c := ch.C
 	cfg := ophosttypes.BridgeConfig{Challenger: c.Addr("c1"), Proposer: c.Addr("p1"),
-		BatchInfo: ophosttypes.BatchInfo{Submitter: "submitter", ChainType: ophosttypes.BatchInfo_CHAIN_TYPE_INITIA},
+		BatchInfo:          ophosttypes.BatchInfo{Submitter: "submitter", ChainType: ophosttypes.BatchInfo_CHAIN_TYPE_INITIA},
 		SubmissionInterval: 1e9, FinalizationPeriod: 1e9, SubmissionStartHeight: 1, OracleEnabled: absx.Bool(info["oracle"])}
 	if !absx.Bool(info["cfgOK"]) {
 		cfg.Proposer = ""
